@@ -1745,9 +1745,72 @@ fn place_q(f: &Frame, q: (P2, f64)) -> Point3D {
     }
 }
 
+/// one `loop.tp` line
+fn tp_line(out: &mut Out, pts: &[Point3D], q: Point3D) {
+    let built = catch(|| build_raw(pts));
+    let res = match &built {
+        Err(_) => "panic".to_string(),
+        Ok(None) => "build-err".into(),
+        Ok(Some(l)) => res_str(catch(|| l.test_point(q)), |b| hb(*b).to_string()),
+    };
+    out.case(&format!("loop.tp {} {}", hpts(pts), hp(q)), &res);
+}
+
 pub fn c05(r: &mut Rng, out: &mut Out, n: usize) {
+    // regression input (repaired by "fix: get_intersection_pt solves nearly parallel segments that point the same way"):
+    // the test ray passes through vertex 3 and the edge leaving it is within 1.7e-4 rad of the ray
+    #[cfg(not(feature = "float"))]
+    {
+        let v: [(f64, f64, f64); 9] = [
+            (-0.6587870131341929, -1.1532300190111715, -2.0896722537351597),
+            (-0.1890985036711491, -0.7175441733595345, -1.6253698528517995),
+            (0.5908853749968501, -0.11207882582412744, -1.005354523663084),
+            (-0.7024782868391015, 0.06678216866295164, -0.5202549705390381),
+            (-0.8469385418674555, 0.5859997258664175, 0.17260439811906814),
+            (-1.8571160119675238, 0.2150597182686002, -0.10176963241301072),
+            (-1.905265467087613, -0.2600144814799593, -0.6999904180180437),
+            (-2.203540315396835, -0.8255266780166781, -1.3643454813370886),
+            (-1.5759942138923195, -0.97338714477967, -1.677852841767832),
+        ];
+        let pts: Vec<Point3D> = v.iter().map(|p| Point3D::new(p.0, p.1, p.2)).collect();
+        tp_line(out, &pts, Point3D::new(-0.5075034169336001, -0.6347363167308615, -1.456341228467147));
+    }
     let mut emitted = 0;
     while emitted < n {
+        if r.below(16) == 0 {
+            // the test ray (from the first edge's midpoint through the query) passes exactly through a vertex A, and the edge
+            // that leaves A (or arrives at it) makes an angle eps with the ray: below about 1e-4 rad the two count as parallel
+            // for Vector3D::is_parallel, whose bound on |a x b|^2 is absolute
+            let f = any_frame(r);
+            let sc = r.pick(&[0.5, 1., 1., 3.]);
+            let eps = r.pick(&[1e-6, 1e-5, 5e-5, 1e-4, 3e-4, 1e-3]) * r.sign() as f64;
+            let l = r.range(0.8, 3.) as f64;
+            let ax = r.range(-0.6, 0.6) as f64; // A is not straight above the midpoint: the ray is oblique in the frame
+            let a = (ax, 2.);
+            let dl = ((ax * ax + 4.) as f64).sqrt();
+            let (dx, dy) = (ax / dl, 2. / dl);
+            // B = A + l * (ray direction turned by eps)
+            let b = (a.0 + l * (dx * eps.cos() - dy * eps.sin()), a.1 + l * (dx * eps.sin() + dy * eps.cos()));
+            let top = b.1;
+            let o: Vec<P2> = vec![(-1., 0.), (1., 0.), (2.5 + ax.max(0.), 1.), a, b, (-2.5 + b.0.min(0.), top), (-2.5 + ax.min(0.), 1.)];
+            let o: Vec<P2> = o.iter().map(|p| (p.0 * sc, p.1 * sc)).collect();
+            let o: Vec<P2> = if r.bool() { o } else {
+                // the other winding with the same first edge
+                let mut t = vec![o[1], o[0]];
+                for k in (2..o.len()).rev() { t.push(o[k]); }
+                t
+            };
+            let pts = placed(&f, &o);
+            let m0 = mid(o[0], o[1]);
+            let av = (a.0 * sc, a.1 * sc);
+            for _ in 0..3 {
+                let t = r.pick(&[0.2, 0.5, 0.8, 0.95, 1.2, 1.6]);
+                let q = place_q(&f, (lerp(m0, av, t), 0.));
+                tp_line(out, &pts, q);
+                emitted += 1;
+            }
+            continue;
+        }
         if r.below(12) == 0 {
             // an outline with an edge ON an in-plane axis of a noisy right-angle frame at the origin (the noise of that edge
             // along one world axis is not absorbed by any offset), queried on the prolongation of that edge at clean coordinates
